@@ -50,10 +50,15 @@ Proof. vm_compute. repeat split; repeat constructor. Qed.
    chain of imports) hands out exactly the in-place recursive expansion, every DIE with the chain of imported_unit
    DIEs it was reached through, innermost first - for every DIE below which imports nest finitely deep (any
    depth n), from some amount of fuel on; and those DIEs are the model's cooked children *)
-Theorem C06_child_producer_is_the_expansion : forall f n d, fits n f (d_kids d) ->
-  exists w, forall e, ChildIterM.children (w + e) f d = ChildIterM.expand n f (d_kids d) [].
+Theorem C06_child_producer_is_the_expansion : forall f n d, fits d_kids n f (d_kids d) ->
+  exists w, forall e, ChildIterM.children (w + e) f d = ChildIterM.expand d_kids n f (d_kids d) [].
 Proof. exact children_are_the_expansion. Qed.
-Theorem C06_child_producer_yields_the_cooked_children : forall f n d, fits n f (d_kids d) ->
+(* the same producer over all DIEs of a unit (cooked `entry`): every import replaced in place by all the DIEs of the
+   imported unit but its root, recursively *)
+Theorem C06_entry_producer_is_the_expansion : forall f n r, fits ChildIterM.rest_of_unit n f (preorder r) ->
+  exists w, forall e, ChildIterM.entries (w + e) f r = ChildIterM.expand ChildIterM.rest_of_unit n f (preorder r) [].
+Proof. exact entries_are_the_expansion. Qed.
+Theorem C06_child_producer_yields_the_cooked_children : forall f n d, fits d_kids n f (d_kids d) ->
   exists w, forall e, map fst (ChildIterM.children (w + e) f d) = cooked_kids (S n) f (d_kids d).
 Proof. exact children_are_cooked_kids. Qed.
 Example C06_child_producer_nonvacuous :
@@ -61,12 +66,14 @@ Example C06_child_producer_nonvacuous :
   let p1 := Die 30 60 true 3 [] [Die 31 52 false 5 [] []; Die 32 61 false 6 [mkattr AT_import 16 (Some 40)] []; Die 33 52 false 5 [] []] in
   let top := Die 10 17 true 1 [] [Die 11 52 false 5 [] []; Die 12 61 false 6 [mkattr AT_import 16 (Some 30)] []; Die 13 52 false 5 [] []] in
   let f := [mkunit 0 4 0 (Some top); mkunit 25 4 0 (Some p1); mkunit 35 4 0 (Some p2)] in
-  fits 2 f (d_kids top) /\
-  map (fun x => (d_off (fst x), snd x)) (ChildIterM.children 50 f top) = [(11, []); (31, [12]); (41, [32; 12]); (33, [12]); (13, [])].
+  fits d_kids 2 f (d_kids top) /\
+  map (fun x => (d_off (fst x), snd x)) (ChildIterM.children 50 f top) = [(11, []); (31, [12]); (41, [32; 12]); (33, [12]); (13, [])] /\
+  map (fun x => (d_off (fst x), snd x)) (ChildIterM.entries 50 f top) = [(10, []); (11, []); (31, [12]); (41, [32; 12]); (33, [12]); (13, [])].
 Proof. vm_compute. repeat split; repeat constructor. Qed.
 
 Print Assumptions C06_inlining_in_place.
 Print Assumptions C06_child_producer_is_the_expansion.
+Print Assumptions C06_entry_producer_is_the_expansion.
 Print Assumptions C06_child_producer_yields_the_cooked_children.
 Print Assumptions C06_atval_is_first_attribute.
 Print Assumptions C06_no_import_left.
